@@ -1226,6 +1226,49 @@ def check_parallel_for_backend(ctx, tu, cfg, tag):
     return 1
 
 
+USERS = 'drivers/c13_users.cpp'
+
+
+def check_no_internal_init(ctx, tus):
+    """R-C13-6 (callers of initTaskingSystem): the thread count is the application's decision.  No function of rkcommon itself -
+    library sources or header-only components such as AsyncLoop, parallel_for, schedule - calls initTaskingSystem(): such a
+    call replaces the configured n (or initialises the system) behind the application's back."""
+    R6 = 'R-C13-6'
+    n = 0
+    seen = set()
+    for tu, tag in tus:
+        for f in tu.functions.values():
+            fn = os.path.normpath(tu.fn_file(f))
+            if not fn.startswith('rkcommon/') or tu.body(f) is None or fn in (INIT_FILE, INIT_HEADER):
+                continue
+            for x in tu.walk(tu.body(f)):
+                if x.get('kind') != 'CallExpr' or not x.get('id'):
+                    continue
+                sd = tu.sd(x)
+                q = sd.get('q')
+                if q is None:
+                    c0 = tu.strip(tu.kids(x)[0]) if tu.kids(x) else None
+                    q = tu.sd(c0).get('q') if c0 is not None else None
+                if q != INIT:
+                    continue
+                key = (fn, re.sub(r'<.*', '', f['q']), tu.loc(x))
+                if key in seen:
+                    continue
+                seen.add(key)
+                n += 1
+                args = [a for a in tu.kids(x)[1:] if a.get('kind') != 'CXXDefaultArgExpr']
+                ctx.violation(R6, 'call of initTaskingSystem in %s [%s]' % (key[1].replace('rkcommon::tasking::', ''), tag),
+                              '%s (%s) calls initTaskingSystem(%s) itself: the library (re-)initialises the tasking system behind the '
+                              'application - the thread count the application configured (or chose not to configure) is replaced, so '
+                              'numTaskingThreads() no longer returns the n of the last initTaskingSystem(n) the application made and '
+                              'parallel_for may run on more threads than that n'
+                              % (key[1].split('::')[-1], fn, ', '.join(tu.show(a) for a in args)), tu.loc(x),
+                              key='%s|%s|%s|init-called-inside-library' % (R6, fn, key[1].replace('rkcommon::tasking::', '')))
+    ctx.ok(R6, 'callers of initTaskingSystem inside rkcommon', '%d translation unit(s) scanned, %d call(s) found' % (len(tus), n),
+           'rkcommon/', nontrivial=bool(tus)) if n == 0 else None
+    return n
+
+
 def check_declared_effects(ctx, tu, tag, reads_state):
     """R-C13-13: what the public declarations promise the compiler.  numTaskingThreads() reads state that initTaskingSystem()
     replaces, so it must not be declared __attribute__((const)) / [[gnu::const]] ("result depends on the arguments only"): the
@@ -1454,6 +1497,13 @@ def run(ctx):
             for u, t in zip(libs, ctx.front.parse_many([dict(unit=u, config=cfgname, extra=ND) for u in libs])):
                 scan.append((t, '%s %s' % (cfgname, u.split('/')[-1])))
     check_who_may_set(ctx, scan)
+    ucfgs = ('TBB', 'OMP', 'INTERNAL', 'DEBUG') if ctx.tier == 'thorough' else ('TBB', 'INTERNAL')
+    utus = ctx.front.parse_many([dict(unit=USERS, config=c, extra=ND) for c in ucfgs])
+    users = [(t, c + ' users') for t, c in zip(utus, ucfgs)]
+    for t, c in users:
+        if not [f for f in t.functions.values() if f['q'].startswith('rkcommon::tasking::AsyncLoop::AsyncLoop')]:
+            ctx.broken('R-C13-6: the users driver does not instantiate AsyncLoop [%s]' % c)
+    check_no_internal_init(ctx, users + [(t, g) for t, g in scan])
     pjobs = [(c, ex) for c in ('TBB', 'OMP', 'INTERNAL', 'DEBUG') for ex in ((), ('-fopenmp',)) if not (c == 'OMP' and ex)]
     n14 = 0
     for (c, ex), ptu in zip(pjobs, ctx.front.parse_many([dict(unit=PARALLEL, config=c, extra=ND + ex) for c, ex in pjobs])):
